@@ -675,7 +675,8 @@ CO_ERR COSdoDownloadBlock(CO_SDO *srv)
     cmd = CO_GET_BYTE(srv->Frm, 0);
     if ((cmd & 0x7F) == (srv->Blk.SegCnt + 1)) {
         /* check, that we need at least 1 byte out of the payload */
-        if (srv->Blk.Len > 0) {
+        if ((srv->Blk.Len > 0) &&
+            (srv->Buf.Num <= (CO_SDO_BUF_BYTE - 7))) {
             for (i = 0; i < 7; i++) {
                 *(srv->Buf.Cur) = CO_GET_BYTE(srv->Frm, 1 + i);
                 srv->Buf.Cur++;
